@@ -533,6 +533,10 @@ def _star_dict_calls(tree):
         n.keywords = new
 
 
+def src_dump(e):
+    return ast.dump(e)
+
+
 def _negate(t):
     """``not t`` in its plainest spelling: double negation is removed and
     the exact complements is / is not, in / not in, == / != are flipped."""
@@ -545,7 +549,77 @@ def _negate(t):
         return ast.copy_location(ast.Compare(
             left=t.left, ops=[flip[type(t.ops[0])]()],
             comparators=t.comparators), t)
+
+    def plain(x):
+        return (isinstance(x, ast.UnaryOp) and isinstance(x.op, ast.Not)) \
+            or (isinstance(x, ast.Compare) and len(x.ops) == 1 and type(
+                x.ops[0]) in flip)
+    if isinstance(t, ast.BoolOp) and all(plain(v) for v in t.values):
+        # De Morgan, when every operand has an exact complement (the
+        # truth value of the test is what matters)
+        dual = ast.Or() if isinstance(t.op, ast.And) else ast.And()
+        return ast.copy_location(ast.BoolOp(
+            op=dual, values=[_negate(v) for v in t.values]), t)
     return ast.copy_location(ast.UnaryOp(op=ast.Not(), operand=t), t)
+
+
+def _simplify_test(t):
+    """A branch test without its neutral constants and double negations:
+    ``x or False`` / ``x and True`` is x, ``not not x`` is x, ``not (a ==
+    b)`` is ``a != b`` (only the truth value of a test is used)."""
+    if isinstance(t, ast.UnaryOp) and isinstance(t.op, ast.Not):
+        inner = _simplify_test(t.operand)
+        n = _negate(inner)
+        if isinstance(n, ast.UnaryOp) and isinstance(n.op, ast.Not):
+            n.operand = inner
+        return n
+    if isinstance(t, ast.BoolOp):
+        neutral = isinstance(t.op, ast.And)
+        vals = [_simplify_test(v) for v in t.values]
+        kept = [v for v in vals if not (isinstance(v, ast.Constant)
+                                        and v.value is neutral)]
+        if not kept:
+            return ast.copy_location(ast.Constant(value=neutral), t)
+        if len(kept) == 1:
+            return kept[0]
+        t.values = kept
+    return t
+
+
+def _dead_constant_stores(tree):
+    """A local that is assigned a constant and never read anywhere in its
+    function is not there."""
+    for fn in ast.walk(tree):
+        if not isinstance(fn, (ast.FunctionDef, ast.AsyncFunctionDef)):
+            continue
+        loads, special = set(), set()
+        for n in ast.walk(fn):
+            if isinstance(n, ast.Name) and not isinstance(n.ctx, ast.Store):
+                loads.add(n.id)
+            elif isinstance(n, (ast.Global, ast.Nonlocal)):
+                special.update(n.names)
+            elif isinstance(n, ast.Call) and isinstance(
+                    n.func, ast.Name) and n.func.id in ('locals', 'vars',
+                                                        'eval', 'exec'):
+                special.add('*')
+        if '*' in special:
+            continue
+        for node in ast.walk(fn):
+            for fld in ('body', 'orelse', 'finalbody'):
+                blk = getattr(node, fld, None)
+                if not (isinstance(blk, list) and blk and isinstance(
+                        blk[0], ast.stmt)):
+                    continue
+                for st in list(blk):
+                    if isinstance(st, ast.Assign) and isinstance(
+                            st.value, ast.Constant) and all(
+                                isinstance(t, ast.Name) and t.id not in loads
+                                and t.id not in special
+                                for t in st.targets):
+                        if len(blk) == 1:
+                            blk[0] = ast.copy_location(ast.Pass(), st)
+                        else:
+                            blk.remove(st)
 
 
 _ITER_WRAPPERS = ('range', 'enumerate', 'zip', 'sorted', 'reversed', 'filter',
@@ -574,9 +648,11 @@ def _bind_loop_iterables(tree):
                     st = blk[i]
                     i += 1
                     if not (isinstance(st, ast.For) and isinstance(
-                            st.iter, ast.Call)):
+                            st.iter, (ast.Call, ast.SetComp, ast.ListComp,
+                                      ast.GeneratorExp, ast.DictComp))):
                         continue
-                    fnc = st.iter.func
+                    fnc = st.iter.func if isinstance(st.iter, ast.Call) \
+                        else None
                     if isinstance(fnc, ast.Name) and fnc.id in \
                             _ITER_WRAPPERS:
                         continue
@@ -784,6 +860,7 @@ def normalise(tree):
     _conditional_expressions(tree)
     _star_dict_calls(tree)
     _tuple_assigns(tree)
+    _dead_constant_stores(tree)
     _bind_loop_iterables(tree)
     _single_aliases(tree)
     _rebinding_chains(tree)
@@ -802,6 +879,16 @@ def normalise(tree):
                 while i < len(blk):
                     st = blk[i]
                     if isinstance(st, ast.If):
+                        t0 = src_dump(st.test)
+                        st.test = _simplify_test(st.test)
+                        if src_dump(st.test) != t0:
+                            changed = True
+                        if st.orelse and all(isinstance(x, ast.Pass)
+                                             for x in st.body):
+                            # ``if c: pass else: B`` is ``if not c: B``
+                            st.test = _negate(st.test)
+                            st.body, st.orelse = st.orelse, []
+                            changed = True
                         t = st.test
                         elif_chain = len(st.orelse) == 1 and isinstance(
                             st.orelse[0], ast.If)
